@@ -112,7 +112,7 @@ theorem addLow_qualityFilter (c : Cov) (p : ProfileV) (pos : Int) (op : String) 
   · unfold Cov.qualityFilter
     rw [addLow_quals c pos op low m hpos, if_neg h]
 
-theorem lookup_of_mem_nodup {κ α : Type} [BEq κ] [LawfulBEq κ] (l : List (κ × α)) (h : (l.map (·.1)).Nodup)
+theorem lookup_of_mem_nodup_keys {κ α : Type} [BEq κ] [LawfulBEq κ] (l : List (κ × α)) (h : (l.map (·.1)).Nodup)
     (e : κ × α) (he : e ∈ l) : l.lookup e.1 = some e.2 := by
   induction l with
   | nil => cases he
@@ -175,7 +175,7 @@ theorem qfiltered_addLow (c : Cov) (p : ProfileV) (pos : Int) (op : String) (low
       · rw [if_neg hany, List.filterMap_append]
         have hq : c.quals ⟨e.1, op⟩ = [] := by
           unfold Cov.quals Cov.ops
-          rw [lookup_of_mem_nodup c.table hkeys e he]
+          rw [lookup_of_mem_nodup_keys c.table hkeys e he]
           have : e.2.lookup op = none := by
             rw [List.lookup_eq_none_iff]
             intro x hx
